@@ -389,8 +389,9 @@ PROPS = {
             'WHERE each channel message may go (precondition of send: ItemReceived / ChannelEndClaimed / ChannelEndClosed / '
             'AddChannelCapacity only to the connection holding the right end)',
             'client-side mirrors under schedules; decided for one step each (unit client_channel_receiver): '
-            'Receiver::poll_next_serialized keeps its credit mirror in (0, max] and grants exactly max - remaining (>= 1) at or below '
-            'the low-water mark, Sender::start_send_serialized uses one unit only when the item was handed over; '
+            'Receiver::poll_next_serialized keeps its credit mirror equal to the outstanding credit (ghost histories: granted - taken) and '
+            'within (0, max], and grants exactly max - remaining (>= 1) at or below the low-water mark (RawChannel::add_channel_capacity '
+            'is MODELLED with &mut self so that the grant history can advance), Sender::start_send_serialized uses one unit only when the item was handed over; '
             'Sender::poll_send_ready / poll_receiver_closed add announced capacity with `+=` (an overflow there would need the '
             'broker to announce more than u32::MAX in total, which Channel::add_capacity rules out on the broker side; the link is '
             'not proved)',
